@@ -1,7 +1,9 @@
-import Bolt.Driver
+import Bolt.Driver.Meta
+import Bolt.Driver.FL
 open Bolt.Driver
 
 def main (args : List String) : IO UInt32 := do
   match args with
   | ["openmeta", path, os] => cmdOpenMeta path (parseNat os); return 0
+  | ["fl"] => cmdFL; return 0
   | _ => IO.eprintln "usage: boltmodel <cmd> ..."; return 2
